@@ -1888,9 +1888,14 @@ impl<Front: SocketHandler + std::fmt::Debug, L: ListenerHandler + L7ListenerHand
                 if !matches!(stream.state, StreamState::Linked(_) | StreamState::Unlinked) {
                     continue;
                 }
+                // `is_completed()` only says that everything received so far was
+                // forwarded: without `is_terminated()` a request body still being
+                // uploaded was marked as ended and its next DATA frame tore the
+                // connection down with GOAWAY(STREAM_CLOSED)
                 if stream.front.consumed
                     && stream.front.storage.is_empty()
                     && stream.front.is_completed()
+                    && stream.front.is_terminated()
                 {
                     stream.front_received_end_of_stream = true;
                     self.frontend
